@@ -67,7 +67,7 @@ def _reachable_from_call(cls):
     return seen
 
 
-def check_cached_key_pairing(repo, chk, rule="B-cachekey"):
+def check_cached_key_pairing(repo, chk, rule="B-cachekey", only_key=None):
     chk.rule(rule, "a per-chain list cached by a preprocessor under data['cached_*'] (one entry per chain) is paired, in every amplitude model that consumes it through zip(...), with per-chain quantities of the same chains: consumers interpreted up to the zip with the selections [1], [2, 0], [0, 1, 2]; a key whose producer is not reachable from its preprocessor's __call__ is dead and reported as INFO")
     producers = {}
     for rel, m in sorted(repo.mods.items()):
@@ -85,6 +85,8 @@ def check_cached_key_pairing(repo, chk, rule="B-cachekey"):
         raise AnalysisError("%s: no producer of a data['cached_*'] entry found (anchor vanished)" % rule)
     n_checked = 0
     for key, fs in sorted(producers.items()):
+        if only_key is not None and key != only_key:
+            continue
         live = []
         for f in fs:
             if f.cls is None:
@@ -107,8 +109,12 @@ def check_cached_key_pairing(repo, chk, rule="B-cachekey"):
             chk.instance(rule, "data['%s']: stored by %s, which its preprocessor's __call__ never reaches - the key is never present, %d consumer branch(es) dead" % (key, ", ".join(f.qual for f in fs), len(consumers)), nontrivial=False)
             continue
         for f in consumers:
-            zips = [st for st in _own_walk(f.node) if isinstance(st, ast.For) and any(isinstance(c, ast.Call) and isinstance(c.func, ast.Name) and c.func.id == "zip" for c in ast.walk(st.iter))]
-            zips = [st for st in zips if st in f.node.body]
+            def _zip_calls(st_):
+                src = st_.iter if isinstance(st_, ast.For) else st_
+                return [c for c in ast.walk(src) if isinstance(c, ast.Call) and isinstance(c.func, ast.Name) and c.func.id == "zip"]
+
+            # a `for ... in zip(..)` loop, or a statement that materialises the pairing (pairs = list(zip(..)))
+            zips = [st for st in f.node.body if (isinstance(st, ast.For) and _zip_calls(st)) or (isinstance(st, (ast.Assign, ast.Expr, ast.Return)) and _zip_calls(st))]
             if not zips:
                 chk.instance(rule, "data['%s'] read by %s: not zipped with another per-chain list" % (key, f.qual), nontrivial=False)
                 continue
@@ -126,10 +132,11 @@ def check_cached_key_pairing(repo, chk, rule="B-cachekey"):
 
                 def set_used(tr_, a_, k_, n_):
                     v = [x for x in a_ if not isinstance(x, SelfObj)]
-                    dg.attrs["chains_idx"] = [sp.Integer(int(i)) for i in (v[0] if v else k_.get("idx"))]
+                    sel_ = v[0] if v else next(iter(k_.values()))
+                    dg.attrs["chains_idx"] = [sp.Integer(int(i)) for i in sel_]
                     return None
 
-                hooks = {"allow_attr_store": True}
+                hooks = {"allow_attr_store": True, "enter_contextmanagers": True}
                 for nm in PER_CHAIN_GETTERS:
                     for g in repo.func_by_name.get(nm, []):
                         if g.cls is not None and g.cls.name == "DecayGroup":
@@ -142,7 +149,7 @@ def check_cached_key_pairing(repo, chk, rule="B-cachekey"):
                     # every chain if it iterates over the group itself
                     calls_m_dep = any(isinstance(c, ast.Call) and isinstance(c.func, ast.Attribute) and c.func.attr == "get_m_dep" for c in ast.walk(g.node))
                     p0 = g.node.args.args[0].arg if g.node.args.args else None
-                    iterates = any(isinstance(c, ast.For) and isinstance(c.iter, ast.Name) and c.iter.id == p0 for c in ast.walk(g.node))
+                    iterates = any(isinstance(c, (ast.For, ast.comprehension)) and isinstance(c.iter, ast.Name) and c.iter.id == p0 for c in ast.walk(g.node))
                     if calls_m_dep == iterates:
                         raise AnalysisError("%s: cannot tell whether it follows the chain selection (get_m_dep) or visits every chain" % g.key)
                     hooks[g.key] = probe("build_params_vector", every=iterates)
@@ -160,7 +167,7 @@ def check_cached_key_pairing(repo, chk, rule="B-cachekey"):
                 try:
                     for st in f.node.body:
                         if st in zips:
-                            zc = [c for c in ast.walk(st.iter) if isinstance(c, ast.Call) and isinstance(c.func, ast.Name) and c.func.id == "zip"][0]
+                            zc = _zip_calls(st)[0]
                             lists = [tr.eval(a_, env, f.mod, 0) for a_ in zc.args]
                             labels = []
                             for l in lists:
@@ -172,7 +179,8 @@ def check_cached_key_pairing(repo, chk, rule="B-cachekey"):
                                 bad = (st.lineno, "with chains_idx = %s the zipped per-chain lists (line %d) name the chains %s" % (sel, st.lineno, " vs ".join(str(x) for x in labels)))
                             if st is last:
                                 break
-                            continue
+                            if isinstance(st, ast.For):
+                                continue   # the loop body works on tensors: not needed for the pairing
                         tr.exec_stmt(st, env, f.mod, 0)
                 except Unmodelled as e:
                     raise AnalysisError("%s cannot be interpreted up to its zip over data['%s']: %s" % (f.qual, key, e))
